@@ -26,6 +26,7 @@
 #include "vector.h"
 #include "matrix.h"
 #include "interpolate.h"
+#include "verifhooks.h"
 
 
 double missing_value(){ return MISSING; }
@@ -56,12 +57,20 @@ uint32_t XOR128_SEED = 0;
 
 void srand_(uint32_t seed)
 {
+  #ifdef LIBSCIENTIFIC_VERIF
+  if(libsci_verif_rng_hook != NULL)
+    libsci_verif_rng_hook(0, seed);
+  #endif
   XOR128_SEED = generate_seed(seed);
 }
 
 double rand_()
 {
   struct xorshift128_state state;
+  #ifdef LIBSCIENTIFIC_VERIF
+  if(libsci_verif_rng_hook != NULL)
+    libsci_verif_rng_hook(1, XOR128_SEED);
+  #endif
   if(XOR128_SEED  == 0)
     XOR128_SEED = time(NULL);
   state.x[0] = XOR128_SEED;
@@ -75,6 +84,10 @@ double rand_()
 int randInt(int low, int high)
 {
   struct xorshift128_state state;
+  #ifdef LIBSCIENTIFIC_VERIF
+  if(libsci_verif_rng_hook != NULL)
+    libsci_verif_rng_hook(2, XOR128_SEED);
+  #endif
   if(XOR128_SEED  == 0)
     XOR128_SEED = time(NULL);
   state.x[0] = XOR128_SEED;
@@ -91,6 +104,10 @@ double randDouble(double low, double high)
    * xor128() cannot return 4294967296
    */
   struct xorshift128_state state;
+  #ifdef LIBSCIENTIFIC_VERIF
+  if(libsci_verif_rng_hook != NULL)
+    libsci_verif_rng_hook(3, XOR128_SEED);
+  #endif
   if(XOR128_SEED  == 0)
     XOR128_SEED = time(NULL);
   state.x[0] = XOR128_SEED;
